@@ -1,32 +1,39 @@
 #!/bin/bash
 # usage: selftest/seedtest.sh <Cnn> <i> [props-to-check...]
-# Verifies a sub-agent's seeded change /tmp/seed-<Cnn>-out/change<i>.diff + demo<i>_test.go in a scratch
-# worktree (removed afterwards): existing tests pass with it, the demo fails with it and passes without it;
-# then runs the property's quick check against the changed tree and reports CAUGHT/MISSED.
+# Verifies the seeded change /verif/seeded/<Cnn>-<i>/{patch.diff,demo_test.go} in a scratch worktree of /repo
+# HEAD (removed afterwards): existing tests pass with it, the demo fails with it and passes without it;
+# then runs the quick check of the property (or of the listed properties) against the changed tree and
+# reports CAUGHT/MISSED with the violated obligations. Never touches /repo's working tree.
 set -u
 id="$1"; i="$2"; shift 2; props="${*:-$id}"
 export GOFLAGS=-mod=mod GOPROXY=off GOSUMDB=off GOTOOLCHAIN=local
-out=/tmp/seed-$id-out
-diff=$out/change$i.diff; demo=$out/demo${i}_test.go
+sd=/verif/seeded/$id-$i
+diff=$sd/patch.diff; demo=$sd/demo_test.go
 [ -f "$diff" ] || { echo "no $diff"; exit 2; }
 wt=$(mktemp -d /tmp/govc-seed-XXXXXX)
 git -C /repo worktree add -q --detach "$wt" HEAD >/dev/null 2>&1
-dir=$(head -3 "$demo" | grep -o 'place in: *[^ ]*' | sed 's/place in: *//' | head -1)
-[ -n "$dir" ] || dir=$(grep -l . /dev/null; echo "")
+dir=$(jq -r '.demo_dir // empty' $sd/meta.json 2>/dev/null)
+[ -n "$dir" ] || dir=$(head -3 "$demo" | grep -o 'place in: *[^ ]*' | sed 's/place in: *//' | head -1)
 res=""
-# demo without the change
-cp "$demo" "$wt/$dir/zz_seed_demo_test.go"
-( cd "$wt" && go test -vet=off -count=1 -timeout 300s ./$dir/ >/tmp/seed-$id-$i.nochange.log 2>&1 ) && res="$res demo-passes-without" || res="$res DEMO-FAILS-WITHOUT"
-rm -f "$wt/$dir/zz_seed_demo_test.go"
-if ! git -C "$wt" apply "$diff" 2>/tmp/seed-$id-$i.apply.log; then echo "$id/$i: patch does not apply: $(cat /tmp/seed-$id-$i.apply.log | head -2)"; git -C /repo worktree remove --force "$wt"; exit 2; fi
-( cd "$wt" && go build ./... >/tmp/seed-$id-$i.build.log 2>&1 && go test -vet=off -count=1 -timeout 600s ./pkg/... >/tmp/seed-$id-$i.tests.log 2>&1 ) && res="$res tests-pass-with" || res="$res TESTS-FAIL-WITH"
-cp "$demo" "$wt/$dir/zz_seed_demo_test.go"
-( cd "$wt" && go test -vet=off -count=1 -timeout 300s ./$dir/ >/tmp/seed-$id-$i.change.log 2>&1 ) && res="$res DEMO-PASSES-WITH" || res="$res demo-fails-with"
-rm -f "$wt/$dir/zz_seed_demo_test.go"
+if [ -n "$dir" ] && [ -z "${SEED_SKIP_DEMO:-}" ]; then
+  cp "$demo" "$wt/$dir/zz_seed_demo_test.go"
+  ( cd "$wt" && go test -vet=off -count=1 -timeout 300s ./$dir/ >/tmp/seed-$id-$i.nochange.log 2>&1 ) && res="$res demo-passes-without" || res="$res DEMO-FAILS-WITHOUT"
+  rm -f "$wt/$dir/zz_seed_demo_test.go"
+fi
+if ! git -C "$wt" apply "$diff" 2>/tmp/seed-$id-$i.apply.log; then echo "$id/$i: patch does not apply: $(head -2 /tmp/seed-$id-$i.apply.log)"; git -C /repo worktree remove --force "$wt"; exit 2; fi
+if [ -z "${SEED_SKIP_DEMO:-}" ]; then
+  ( cd "$wt" && go build ./... >/tmp/seed-$id-$i.build.log 2>&1 && go test -vet=off -count=1 -timeout 600s ./pkg/... >/tmp/seed-$id-$i.tests.log 2>&1 ) && res="$res tests-pass-with" || res="$res TESTS-FAIL-WITH"
+  if [ -n "$dir" ]; then
+    cp "$demo" "$wt/$dir/zz_seed_demo_test.go"
+    ( cd "$wt" && go test -vet=off -count=1 -timeout 300s ./$dir/ >/tmp/seed-$id-$i.change.log 2>&1 ) && res="$res DEMO-PASSES-WITH" || res="$res demo-fails-with"
+    rm -f "$wt/$dir/zz_seed_demo_test.go"
+  fi
+fi
 for p in $props; do
-  o=$(cd /verif && VERIF_REPO="$wt" VERIF_EVIDENCE_DIR="$wt/.evidence" VERIF_REPLAY_DIR="$wt/.replays" ./bin/govc check "$p" --tier quick 2>&1); rc=$?
+  o=$(cd /verif && VERIF_REPO="$wt" VERIF_EVIDENCE_DIR="$wt/.evidence" VERIF_REPLAY_DIR="$wt/.replays" ${GOVC:-./bin/govc} check "$p" --tier "${SEED_TIER:-quick}" 2>&1); rc=$?
   nv=$(echo "$o" | grep -c '^VIOLATION')
-  if [ $rc -eq 1 ] && [ $nv -gt 0 ]; then res="$res | $p: CAUGHT ($nv)"; echo "$o" | grep "violated obligation" | head -4 | cut -c1-250 > /tmp/seed-$id-$i.$p.caught; else res="$res | $p: MISSED (rc=$rc)"; fi
+  echo "$o" | grep -E "violated obligation|^VIOLATION" | head -6 | cut -c1-300 > /tmp/seed-$id-$i.$p.caught
+  if [ $rc -eq 1 ] && [ $nv -gt 0 ]; then res="$res | $p: CAUGHT ($nv)"; else res="$res | $p: MISSED (rc=$rc)"; fi
 done
 echo "$id/$i:$res"
 git -C /repo worktree remove --force "$wt"
